@@ -9239,3 +9239,183 @@ func E11StrokeSettleRule(c *core.Ctx, r *core.Report) {
 	r.Count("E11.stroke-settles", n)
 	r.Floor("E11.stroke-settles", 5)
 }
+
+// E11AlignedWidthExcludesEOL: lines are aligned by the width of what is drawn.
+func E11AlignedWidthExcludesEOL(c *core.Ctx, r *core.Report) {
+	r.Rule("E11.aligned-width-excludes-eol", "RichText.ToText drops the white space between the last box of a line and its break, so a right-aligned line ends at the width — and a centred one is centred — only if that white space takes no part in the line's width. (1) The offset added to x under `halign == Right` and under `halign == Center` subtracts, besides the break's width, a float local that the loop over the line's items resets to zero at every box and increases by the width of every glue: the width of the trailing white space. (2) The statement that adds the stretch of a glue run to the break's width (`breaks[j].Width += adv`) is not executed for the run that ends at the break: one of its enclosing conditions compares the item index with the break index. Otherwise `\"abc \\ndef\"` right-aligned in a box of 50 puts `abc` at x = 0: the filler glue before the forced break hands its whole stretch to the trailing space")
+	p := c.MustPkg("")
+	info := p.TypesInfo
+	fd := core.MustFuncDecl(p, "RichText.ToText")
+	r.Func("canvas.RichText.ToText")
+	// (a) trailing-width accumulators: reset under a BoxType test and accumulated from an item's Width in a range over items
+	accs := map[types.Object]bool{}
+	ast.Inspect(fd.Body, func(m ast.Node) bool {
+		rs, ok := m.(*ast.RangeStmt)
+		if !ok {
+			return true
+		}
+		reset, added := map[types.Object]bool{}, map[types.Object]bool{}
+		ast.Inspect(rs.Body, func(k ast.Node) bool {
+			is, ok := k.(*ast.IfStmt)
+			if !ok {
+				return true
+			}
+			isBox := false
+			ast.Inspect(is.Cond, func(q ast.Node) bool {
+				if se, ok := q.(*ast.SelectorExpr); ok && se.Sel.Name == "BoxType" {
+					isBox = true
+				}
+				return true
+			})
+			if !isBox {
+				return true
+			}
+			for _, st := range is.Body.List {
+				if as, ok := st.(*ast.AssignStmt); ok && as.Tok == token.ASSIGN && len(as.Lhs) == 1 && len(as.Rhs) == 1 {
+					if id, ok := as.Lhs[0].(*ast.Ident); ok {
+						if tv, ok := info.Types[as.Rhs[0]]; ok && tv.Value != nil && constant.Sign(tv.Value) == 0 {
+							if b, ok := core.ObjOf(info, id).Type().Underlying().(*types.Basic); ok && b.Info()&types.IsFloat != 0 {
+								reset[core.ObjOf(info, id)] = true
+							}
+						}
+					}
+				}
+			}
+			if is.Else != nil {
+				ast.Inspect(is.Else, func(q ast.Node) bool {
+					if as, ok := q.(*ast.AssignStmt); ok && as.Tok == token.ADD_ASSIGN && len(as.Lhs) == 1 && len(as.Rhs) == 1 {
+						if id, ok := as.Lhs[0].(*ast.Ident); ok {
+							if se, ok := core.Unparen(as.Rhs[0]).(*ast.SelectorExpr); ok && se.Sel.Name == "Width" {
+								added[core.ObjOf(info, id)] = true
+							}
+						}
+					}
+					return true
+				})
+			}
+			return true
+		})
+		for o := range reset {
+			if added[o] {
+				accs[o] = true
+			}
+		}
+		return true
+	})
+	// (1) the alignment offsets
+	n := 0
+	ast.Inspect(fd.Body, func(m ast.Node) bool {
+		is, ok := m.(*ast.IfStmt)
+		if !ok {
+			return true
+		}
+		var visit func(is *ast.IfStmt)
+		visit = func(is *ast.IfStmt) {
+			which := ""
+			ast.Inspect(is.Cond, func(k ast.Node) bool {
+				if id, ok := k.(*ast.Ident); ok && (id.Name == "Right" || id.Name == "Center") {
+					if _, isConst := core.ObjOf(info, id).(*types.Const); isConst {
+						which = id.Name
+					}
+				}
+				return true
+			})
+			if which != "" {
+				for _, st := range is.Body.List {
+					as, ok := st.(*ast.AssignStmt)
+					if !ok || as.Tok != token.ADD_ASSIGN || len(as.Rhs) != 1 {
+						continue
+					}
+					// only the per-line offset: it mentions a break's Width
+					mentionsBreakWidth, mentionsAcc := false, false
+					ast.Inspect(as.Rhs[0], func(k ast.Node) bool {
+						switch x := k.(type) {
+						case *ast.SelectorExpr:
+							if x.Sel.Name == "Width" {
+								if _, isIdx := core.Unparen(x.X).(*ast.IndexExpr); isIdx {
+									mentionsBreakWidth = true
+								}
+							}
+						case *ast.Ident:
+							if accs[core.ObjOf(info, x)] {
+								mentionsAcc = true
+							}
+						}
+						return true
+					})
+					if !mentionsBreakWidth {
+						continue
+					}
+					n++
+					key := "canvas.RichText.ToText|offset of a " + which + "-aligned line leaves out the trailing white space"
+					if mentionsAcc {
+						r.OK("E11.aligned-width-excludes-eol", key, c.Pos(as.Pos()), c.Src(as.Rhs[0]))
+					} else {
+						r.Fail("E11.aligned-width-excludes-eol", key, c.Pos(as.Pos()), "the offset `"+c.Src(as.Rhs[0])+"` is computed from the break's width alone, which includes the white space between the last box and the break: a line that ends in spaces (before a newline, or where several spaces were typed) is shifted left by their width")
+					}
+				}
+			}
+			if el, ok := is.Else.(*ast.IfStmt); ok {
+				visit(el)
+			}
+		}
+		visit(is)
+		return false
+	})
+	// (2) the stretch of the run that ends at the break is not added
+	m := 0
+	var stack []ast.Node
+	ast.Inspect(fd.Body, func(nd ast.Node) bool {
+		if nd == nil {
+			stack = stack[:len(stack)-1]
+			return true
+		}
+		stack = append(stack, nd)
+		as, ok := nd.(*ast.AssignStmt)
+		if !ok || as.Tok != token.ADD_ASSIGN || len(as.Lhs) != 1 {
+			return true
+		}
+		se, ok := as.Lhs[0].(*ast.SelectorExpr)
+		if !ok || se.Sel.Name != "Width" {
+			return true
+		}
+		if _, isIdx := core.Unparen(se.X).(*ast.IndexExpr); !isIdx {
+			return true
+		}
+		m++
+		key := "canvas.RichText.ToText|stretch is not given to the white space before the break"
+		// the loop that contains it and its index variable; the break index is the loop's bound
+		guarded := false
+		for i := len(stack) - 2; i >= 0; i-- {
+			is, ok := stack[i].(*ast.IfStmt)
+			if !ok || !(is.Body.Pos() <= as.Pos() && as.End() <= is.Body.End()) {
+				continue
+			}
+			ast.Inspect(is.Cond, func(k ast.Node) bool {
+				be, ok := k.(*ast.BinaryExpr)
+				if !ok || (be.Op != token.NEQ && be.Op != token.LSS) {
+					return true
+				}
+				_, xi := core.Unparen(be.X).(*ast.Ident)
+				_, yi := core.Unparen(be.Y).(*ast.Ident)
+				if xi && yi {
+					tx, ty := info.TypeOf(be.X), info.TypeOf(be.Y)
+					if tx != nil && ty != nil && types.Identical(tx, types.Typ[types.Int]) && types.Identical(ty, types.Typ[types.Int]) {
+						guarded = true
+					}
+				}
+				return true
+			})
+		}
+		if guarded {
+			r.OK("E11.aligned-width-excludes-eol", key, c.Pos(as.Pos()), "")
+		} else {
+			r.Fail("E11.aligned-width-excludes-eol", key, c.Pos(as.Pos()), "the stretch of every glue run is added to the break's width, also that of the run between the last box and the break: before a forced break that run contains the filler glue, whose stretch is the whole rest of the line")
+		}
+		return true
+	})
+	r.Count("E11.aligned-offsets", n)
+	r.Floor("E11.aligned-offsets", 2)
+	r.Count("E11.stretch-additions", m)
+	r.Floor("E11.stretch-additions", 1)
+}
